@@ -33,7 +33,8 @@ package connmgr
 //   trim-kept-lower-value      a peer with a connection in X has a strictly higher value than a kept eligible peer
 //   trim-below-low-watermark   count <= low before the trim and X is not empty
 //   trim-left-too-many         count > low and the eligible peers keep more than low tracked connections not in X
-//   closed-outside-trim        an operation that is not a trim (tagging, notifications, protect) closed something
+// If any other operation (a notification, a tag operation) closes connections, that is treated as a trim that
+// ran at that moment and the same oracles apply (the statement does not say when trims may run).
 // Forced trim (ForceTrim = the memory-emergency path of this version):
 //   forced-closed-protected-before-unprotected   X has a connection of a protected peer while a tracked connection
 //                                                of an unprotected peer is not in X
@@ -47,6 +48,7 @@ package connmgr
 import (
 	"fmt"
 	"sort"
+	"strconv"
 	"strings"
 	"sync"
 	"time"
@@ -293,24 +295,49 @@ func (m *c14sModel) decayTick() {
 	}
 }
 
-func (m *c14sModel) snap() string {
-	var sb strings.Builder
+func (m *c14sModel) snap() string { return string(m.appendSnap(nil)) }
+
+func (m *c14sModel) appendSnap(b []byte) []byte {
+	bit := func(v bool) byte {
+		if v {
+			return '1'
+		}
+		return '0'
+	}
 	for i := range m.peers {
 		e := &m.peers[i]
+		b = append(b, c14sPeerNames[i], ':')
 		if !e.exists {
-			sb.WriteString("-;")
-			continue
+			b = append(b, '-')
+		} else {
+			age := m.now - e.first
+			if age > c14sGrace {
+				age = c14sGrace
+			}
+			if e.temp {
+				b = append(b, "temp,"...)
+			}
+			b = append(b, "age="...)
+			b = strconv.AppendInt(b, int64(age/time.Second), 10)
+			for t := range e.tagSet {
+				if e.tagSet[t] {
+					b = append(b, ',')
+					b = append(b, c14sTagNames[t]...)
+					b = append(b, '=')
+					b = strconv.AppendInt(b, int64(e.tagVal[t]), 10)
+				}
+			}
+			if e.dSet {
+				b = append(b, ",d="...)
+				b = strconv.AppendInt(b, int64(e.dVal), 10)
+			}
+			b = append(b, ",conns="...)
+			b = append(b, bit(e.conns[0]), bit(e.conns[1]))
 		}
-		age := m.now - e.first
-		if age > c14sGrace {
-			age = c14sGrace
-		}
-		fmt.Fprintf(&sb, "%v,%d,%v%v,%v%d,%v;", e.temp, age/time.Second, e.tagSet, e.tagVal, e.dSet, e.dVal, e.conns)
+		b = append(b, ",prot="...)
+		b = append(b, bit(m.prot[i][0]), bit(m.prot[i][1]), ' ')
 	}
-	for i := range m.prot {
-		fmt.Fprintf(&sb, "%v", m.prot[i])
-	}
-	return sb.String()
+	return b
 }
 
 // ---------- trim oracles ----------
@@ -318,7 +345,7 @@ func (m *c14sModel) snap() string {
 const (
 	c14sTrimExplicit = iota // TrimOpenConns
 	c14sTrimTick            // a 5 s clock step (background tick, may or may not trim)
-	c14sTrimOther           // any other non-forced operation
+	c14sTrimOther           // any other non-forced operation (a trim ran only if something was closed)
 )
 
 // c14sCheckTrim evaluates the non-forced trim oracles for the connections X closed during one operation,
@@ -330,9 +357,6 @@ func c14sCheckTrim(m *c14sModel, kind int, x [c14sNC]bool, nx int, vals ...[c14s
 		return nil
 	}
 	n := m.count()
-	if nx > 0 && kind == c14sTrimOther {
-		return c14sVio("closed-outside-trim", "connections %s were closed by an operation that is not a trim", c14sSetStr(x))
-	}
 	closedPeer := [c14sNP]bool{}
 	for c := 0; c < c14sNC; c++ {
 		if !x[c] {
